@@ -126,6 +126,25 @@ def do_dump(dbpath, cfg, mode, batch):
         return 'exc', e, rows
 
 
+NEIGHBOURS = ['t_2020', 'tt', 'at', 't2']
+
+
+def neighbours_damaged(path):
+    import sqlite3
+    c = sqlite3.connect(path)
+    try:
+        for name in NEIGHBOURS:
+            try:
+                rows = list(c.execute('select k, v from %s' % name))
+            except sqlite3.OperationalError:
+                return 'the unrelated table %r no longer exists' % name
+            if rows != [('n', name)]:
+                return 'the unrelated table %r now holds %r' % (name, rows)
+    finally:
+        c.close()
+    return None
+
+
 def explore(task):
     cfg, depth = task['cfg'], task['depth']
     out = {'n': 0, 'keys': [], 'outcomes': {}, 'viol': [], 'states': 0, 'transitions': 0, 'traces': 0}
@@ -143,7 +162,19 @@ def explore(task):
 
     with core.scratch_dir() as d:
         db = os.path.join(d, 'db.sqlite')
-        states = {cj(None): (None, None, [])}      # canon key -> (file bytes, model table, history)
+        blob0 = None
+        if cfg.get('neighbours'):
+            # the database already holds other tables whose names share a prefix / suffix / infix with the target 't'
+            import sqlite3
+            c = sqlite3.connect(db)
+            for name in NEIGHBOURS:
+                c.execute('create table %s (k text, v text)' % name)
+                c.execute('insert into %s values (?, ?)' % name, ('n', name))
+            c.commit()
+            c.close()
+            with open(db, 'rb') as f:
+                blob0 = f.read()
+        states = {cj(None): (blob0, None, [])}      # canon key -> (file bytes, model table, history)
         frontier = collections.deque([cj(None)])
         while frontier:
             key = frontier.popleft()
@@ -188,6 +219,11 @@ def explore(task):
                     if canon(actual) != canon(newtable):
                         V('table/%s' % mode, '%s: table holds %s, mode prescribes %s' % (label, canon(actual), canon(newtable)), h2)
                         continue
+                    if cfg.get('neighbours'):
+                        bad = neighbours_damaged(db)
+                        if bad:
+                            V('neighbour-table/%s' % mode, '%s: %s' % (label, bad), h2)
+                            continue
                     if cfg.get('two'):
                         actual2 = db_rows(db, cfg['cols'], 't2')
                         if canon(actual2) != canon(newtable):
@@ -278,6 +314,7 @@ def configs(tier):
         out.append({'pk': False, 'batch_size': 1000, 'bloom': bloom, 'cols': ['numkey']})
         out.append({'pk': False, 'batch_size': 1000, 'bloom': bloom, 'cols': [], 'pk_other': True})
     out.append({'pk': False, 'batch_size': 1000, 'bloom': True, 'cols': [], 'keys_always': True})
+    out.append({'pk': False, 'batch_size': 1000, 'bloom': True, 'cols': [], 'neighbours': True})
     out.append({'pk': False, 'batch_size': 1, 'bloom': False, 'cols': ['arr', 'obj'], 'keys_always': True})
     # one step writing two tables with the same column names
     for pk in (False, True):
